@@ -123,6 +123,13 @@ VHdr(ev) ==
     ELSE IF ev.back2 # ev.raw THEN "raw-from-openssl-der"
     ELSE "ok"
 
+\* BEC2's key class loaded from ANY legal DER form of a P-256 public key yields the key's raw 64-byte X||Y
+VHdr2(ev) ==
+    IF Len(ev.raw) # 64 THEN "raw-length"
+    ELSE IF ~ev.ok THEN "legal-der-form-rejected"
+    ELSE IF ev.back # ev.raw THEN "raw-form-is-not-the-key"
+    ELSE "ok"
+
 \* Which damaged inputs must be rejected whatever the numbers in them are:
 \*   der     every truncation and extension (MC_DER / MC_DERTrees: valid DER is prefix-free; VEnc re-checks
 \*           the truncations of every concrete encoding)
@@ -155,6 +162,7 @@ Verdict(ev) ==
     ELSE IF ev.op = "ossl" THEN VOssl(ev)
     ELSE IF ev.op = "odec" THEN VOdec(ev)
     ELSE IF ev.op = "hdr" THEN VHdr(ev)
+    ELSE IF ev.op = "hdr2" THEN VHdr2(ev)
     ELSE IF ev.op = "mut" THEN VMut(ev)
     ELSE IF ev.op = "curve" THEN VCurve(ev)
     ELSE "unknown-op"
